@@ -5,8 +5,9 @@ HERE = os.path.dirname(os.path.dirname(os.path.abspath(__file__)))
 sys.path.insert(0, HERE)
 from vlib import core
 lean_targets, crates = [], []
+CLAIMED = set(open(os.path.join(HERE, "tools", "claimed.txt")).read().split())
 for fn in sorted(os.listdir(os.path.join(HERE, "props"))):
-    if not fn.endswith(".py"):
+    if not fn.endswith(".py") or fn[:-3] not in CLAIMED:
         continue
     spec = importlib.util.spec_from_file_location("p_" + fn[:-3], os.path.join(HERE, "props", fn))
     mod = importlib.util.module_from_spec(spec)
